@@ -44,6 +44,7 @@ func (p *Pt) String() string { return fmt.Sprintf("#%d(%g,%g)", p.ID, p.P[0], p.
 type World struct {
 	Bound orb.Bound
 	W     float64     // half width
+	H     float64     // half height (bounds are not always square)
 	Pool  []orb.Point // alphabet of in-bound points
 	Out   []orb.Point // points outside the bound
 }
@@ -59,11 +60,20 @@ func NewWorld(s *core.Source, alphabet int) *World {
 		ox = float64(s.Range(-4, 4, "ox")) * w.W
 		oy = float64(s.Range(-4, 4, "oy")) * w.W
 	}
-	w.Bound = orb.Bound{Min: orb.Point{ox - w.W, oy - w.W}, Max: orb.Point{ox + w.W, oy + w.W}}
+	w.H = w.W
+	switch s.Pick([]int{4, 1, 1, 1}, "aspect") {
+	case 1:
+		w.H = w.W / 2
+	case 2:
+		w.H = w.W * 2
+	case 3:
+		w.H = w.W * 1.5 // cell midlines are still dyadic
+	}
+	w.Bound = orb.Bound{Min: orb.Point{ox - w.W, oy - w.H}, Max: orb.Point{ox + w.W, oy + w.H}}
 	for i := 0; i < alphabet; i++ {
 		w.Pool = append(w.Pool, w.drawInside(s))
 	}
-	if w.W == 1 && s.Chance(1, 6, "micro") {
+	if w.W == 1 && w.H <= 1 && s.Chance(1, 6, "micro") {
 		// a cluster of points 2^-24 apart: the tree must grow ~24 levels deep to
 		// separate them (offsets stay exact in float64 because the bound is small)
 		base := w.Pool[0]
@@ -275,6 +285,15 @@ func (m *Model) InBox(b orb.Bound, f *Filter) []*Pt {
 	return out
 }
 
+// counts: how many times each pointer is stored (the contents are a multiset).
+func (m *Model) counts() map[*Pt]int {
+	c := make(map[*Pt]int, len(m.Live))
+	for _, x := range m.Live {
+		c[x]++
+	}
+	return c
+}
+
 func (m *Model) has(p *Pt) bool {
 	for _, x := range m.Live {
 		if x == p {
@@ -445,6 +464,13 @@ func (r Result) String() string {
 // It returns a non-empty oracle id and message on disagreement.
 func (m *Model) Check(q *Query, r Result) (oracle, msg string) {
 	name := QueryNames[q.Kind]
+	var cnt map[*Pt]int
+	count := func(x *Pt) int {
+		if cnt == nil {
+			cnt = m.counts()
+		}
+		return cnt[x]
+	}
 	asPt := func(p orb.Pointer) (*Pt, string) {
 		x, ok := p.(*Pt)
 		if !ok || x == nil {
@@ -453,7 +479,7 @@ func (m *Model) Check(q *Query, r Result) (oracle, msg string) {
 		if x == sentinel {
 			return nil, fmt.Sprintf("%s returned a stale buffer entry", name)
 		}
-		if !m.has(x) {
+		if count(x) == 0 {
 			return nil, fmt.Sprintf("%s returned %v which is not in the tree", name, x)
 		}
 		if !q.F.Accept(x.ID) {
@@ -496,16 +522,16 @@ func (m *Model) Check(q *Query, r Result) (oracle, msg string) {
 		if len(r.Many) != len(ds) {
 			return "knearest", fmt.Sprintf("%s returned %d pointers, want %d", name, len(r.Many), len(ds))
 		}
-		seen := map[*Pt]bool{}
+		seen := map[*Pt]int{}
 		for i, p := range r.Many {
 			x, bad := asPt(p)
 			if bad != "" {
 				return "knearest", bad
 			}
-			if seen[x] {
-				return "knearest", fmt.Sprintf("%s returned %v twice", name, x)
+			seen[x]++
+			if seen[x] > count(x) {
+				return "knearest", fmt.Sprintf("%s returned %v more often than it is stored", name, x)
 			}
-			seen[x] = true
 			if d := dist2(x.P, q.P); d != ds[i] {
 				return "knearest", fmt.Sprintf("%s result %d is %v at squared distance %g, the %d-th smallest is %g", name, i, x, d, i, ds[i])
 			}
@@ -515,16 +541,16 @@ func (m *Model) Check(q *Query, r Result) (oracle, msg string) {
 		if len(r.Many) != len(want) {
 			return "inbound", fmt.Sprintf("%s returned %d pointers, want %d", name, len(r.Many), len(want))
 		}
-		seen := map[*Pt]bool{}
+		seen := map[*Pt]int{}
 		for _, p := range r.Many {
 			x, bad := asPt(p)
 			if bad != "" {
 				return "inbound", bad
 			}
-			if seen[x] {
-				return "inbound", fmt.Sprintf("%s returned %v twice", name, x)
+			seen[x]++
+			if seen[x] > count(x) {
+				return "inbound", fmt.Sprintf("%s returned %v more often than it is stored", name, x)
 			}
-			seen[x] = true
 			if x.P[0] < q.Box.Min[0] || x.P[0] > q.Box.Max[0] || x.P[1] < q.Box.Min[1] || x.P[1] > q.Box.Max[1] {
 				return "inbound", fmt.Sprintf("%s returned %v outside the box", name, x)
 			}
@@ -550,16 +576,17 @@ func (m *Model) CheckContents(tr *quadtree.Quadtree) string {
 	if len(got) != len(m.Live) {
 		return fmt.Sprintf("tree holds %d pointers, model %d", len(got), len(m.Live))
 	}
-	seen := map[*Pt]bool{}
+	cnt := m.counts()
+	seen := make(map[*Pt]int, len(got))
 	for _, p := range got {
 		x, ok := p.(*Pt)
-		if !ok || x == nil || !m.has(x) {
+		if !ok || x == nil || cnt[x] == 0 {
 			return fmt.Sprintf("tree holds %v which was never added or was removed", p)
 		}
-		if seen[x] {
-			return fmt.Sprintf("tree holds %v twice", x)
+		seen[x]++
+		if seen[x] > cnt[x] {
+			return fmt.Sprintf("tree holds %v %d times, it was added %d times", x, seen[x], cnt[x])
 		}
-		seen[x] = true
 	}
 	return ""
 }
